@@ -293,7 +293,7 @@ Definition spec_ok (c : case) : bool :=
   end.
 
 (* no open finding: F-C24-1 (NULL distance keys) and F-C24-2 (LIMIT 0) are repaired in /repo
-   (34f5e9d, fec49c7); their witnesses run as ordinary cases on every check *)
+   (26fae1f, 1f0a068); their witnesses run as ordinary cases on every check *)
 Definition known_class (c : case) : Z := 0.
 
 Fixpoint failures_from (i : Z) (cs : list case) : list (Z * bool * bool * Z) :=
